@@ -2,6 +2,7 @@ package c20
 
 import (
 	"pgregory.net/rapid"
+	"strings"
 )
 
 // Small alphabet with many near-collisions: byte order differs from
@@ -26,7 +27,17 @@ func genTok(lo, hi int) *rapid.Generator[string] {
 	})
 }
 
+// boundaryLens are lengths around the sizes of buffers an implementation might
+// use for an item of the string that is hashed.
+var boundaryLens = []int{15, 16, 17, 31, 32, 33, 63, 64, 65, 127, 128, 129, 255, 256, 257, 511, 512, 513, 1023, 1024, 1025, 4095, 4096, 4097}
+
 func pick(t *rapid.T, label string, pool []string, lo, hi int) string {
+	if rapid.IntRange(0, 24).Draw(t, label+"-long?") == 0 {
+		// an item of a length at a buffer boundary (in bytes)
+		n := rapid.SampledFrom(boundaryLens).Draw(t, label+"-len")
+		tail := rapid.SampledFrom([]string{"a", "b", "<", "é"}).Draw(t, label+"-tail")
+		return strings.Repeat("x", n-len(tail)) + tail
+	}
 	if rapid.IntRange(0, 9).Draw(t, label+"?") < 6 {
 		return rapid.SampledFrom(pool).Draw(t, label)
 	}
